@@ -30,6 +30,27 @@ CLAIMED = {
              'observation, not armed',
         technique='class-lattice signature analysis + path-sensitive '
                   'abstract interpretation of constructors/casts/guards'),
+    'C05': dict(
+        text='Every rewriter (get_equivalent_restricted_formula of each '
+             'alphabet class of CTL*, LTL, CTL; 41 rule instances) is '
+             'interpreted abstractly on a generic instance with hole '
+             'children, giving closed rewrite templates. (a) templates use '
+             'only the restricted alphabet over rewritten children: by '
+             'induction on height every output is restricted -- complete. '
+             '(b) each template is an equivalence: proved by definitional '
+             'normal form, else decided by evaluating the two extracted '
+             'terms (never repository code) on all small models, verdict '
+             'recorded as bounded(n); CTL* equivalence is a congruence, so '
+             'valid closed rules give equivalence for all formulas. LNot: '
+             'parity of stripped/added negations on every path.',
+        ref='3-C05',
+        note='trusted: documented semantics as implemented by the 150-line '
+             'evaluator in pmcv/oracle.py; bounded verdicts hold up to 2 '
+             '(quick) / 3 (thorough) states resp. lassos of length 4 / 6; '
+             'bare CTL path formulas (X p without quantifier) not armed',
+        technique='abstract interpretation into rewrite templates + '
+                  'structural induction; template validity by normal form '
+                  'or bounded model enumeration of the extracted terms'),
 }
 
 NOT_YET = {}
